@@ -192,6 +192,11 @@ class _FormulaMeta(ABCMeta):
                 _context=context,
             )._simplify()
         if isinstance(spec, (list, set, OrderedSet)):
+            if isinstance(spec, set):
+                # The iteration order of a builtin set of strings varies with the
+                # interpreter's hash seed; and terms of equal degree keep the
+                # order in which they are given.
+                spec = sorted(spec, key=str)
             terms = [
                 term
                 for value in spec
